@@ -139,6 +139,12 @@ int main(int argc, char **argv) {
     C_ADDR = mc_counter("addresses"); C_DELTA20 = mc_counter("rfc20_delta_cases"); C_DELTAUS = mc_counter("underscore_delta_cases"); C_DELTA5322 = mc_counter("rfc5322_delta_cases"); C_SAME = mc_counter("must_be_identical_comparisons");
     if (corpus_load()) return 2;
     if (mc_replay) return do_replay();
+    int light = 0; for (int i = 1; i < argc; i++) if (!strcmp(argv[i], "--light")) light = 1;
+    if (light) {      /* the step that repeats the comparison under another process locale: the corpora in which single bytes vary */
+        static const int PL[] = { CP_DOMAIN, CP_BYTES, CP_SUBST, CP_LABELLEN, CP_SHORTLAB, CP_POSN };
+        for (unsigned i = 0; i < sizeof PL / sizeof PL[0]; i++) { CURPH = PL[i]; char nm[64]; snprintf(nm, sizeof nm, "%.40s (N=%d)", corpus_name(CURPH), corpus_N(CURPH)); mc_parallel(nm, corpus_shards(CURPH), phase_shard, NULL); }
+        return mc_finish();
+    }
     static const int PH[] = { CP_LOCAL, CP_EMAIL, CP_DOMAIN, CP_CROSS, CP_BYTES, CP_TLD, CP_LITERAL, CP_LABELLEN, CP_ALTDOT, CP_LONGIDN, CP_MAXLIT, CP_LPXDOM, CP_WHOLEDOM, CP_DEPTH, CP_EMBED, CP_SUBST, CP_SHORTLAB, CP_POSN, CP_WRAP, CP_SCALARS };
     for (unsigned i = 0; i < sizeof PH / sizeof PH[0]; i++) { CURPH = PH[i]; char nm[64]; snprintf(nm, sizeof nm, "%.40s (N=%d)", corpus_name(CURPH), corpus_N(CURPH)); mc_parallel(nm, corpus_shards(CURPH), phase_shard, NULL); }
     return mc_finish();
